@@ -1,5 +1,5 @@
 (* Props/C09.v -- property C09: all entry points agree (str, slice, reader under any chunking). *)
-From SS Require Import Model.Reader Proofs.ReaderChunks Proofs.ReaderRing.
+From SS Require Import Model.Reader Proofs.ReaderChunks Proofs.ReaderRing Proofs.ReaderSound.
 Local Open Scope N_scope.
 
 (* For every text of valid scalar values and EVERY partition of its UTF-8 bytes into non-empty read
@@ -37,6 +37,33 @@ Check C09_ring_transparent : forall ops s,
   let '(out, _, _) := ring_run ops (ring_new s) [] [] in
   exists tail, all_bytes s = out ++ tail.
 Print Assumptions C09_ring_transparent.
+
+(* Soundness for EVERY schedule, faulty ones included, and every size cap: whatever the reads return
+   (chunks, errors, early end), each character handed to the parser is the decoding of a UTF-8
+   sequence, the characters already delivered are never retracted, the byte count never decreases,
+   and the only change a run can make to the error cell is to put an error into it (it never
+   clears one). *)
+Theorem C09_reader_run_sound : forall fuel mb c acc out c', ck_total c <= USIZE_MAX_R ->
+  chunked_all fuel mb c acc = (out, c') ->
+  ck_total c <= ck_total c' /\
+  (ck_cell c' = ck_cell c \/ exists k, ck_cell c' = Some k) /\
+  exists ys, out = rev acc ++ ys /\ Forall (fun ch => exists bytes, utf8_dec bytes = Some [ch]) ys.
+Proof. exact run_sound. Qed.
+Check C09_reader_run_sound : forall fuel mb c acc out c', ck_total c <= USIZE_MAX_R ->
+  chunked_all fuel mb c acc = (out, c') ->
+  ck_total c <= ck_total c' /\
+  (ck_cell c' = ck_cell c \/ exists k, ck_cell c' = Some k) /\
+  exists ys, out = rev acc ++ ys /\ Forall (fun ch => exists bytes, utf8_dec bytes = Some [ch]) ys.
+Print Assumptions C09_reader_run_sound.
+
+(* Non-vacuity: a schedule that fails inside the second character delivers the first one and
+   leaves the error in the cell. *)
+Example C09_faulty_schedule_example :
+  chunked_run None [RChunk [195]; RChunk [169; 230]; RFail (KOther 5)] 10 = ([233], Some (KOther 5)).
+Proof. vm_compute. reflexivity. Qed.
+Check C09_faulty_schedule_example :
+  chunked_run None [RChunk [195]; RChunk [169; 230]; RFail (KOther 5)] 10 = ([233], Some (KOther 5)).
+Print Assumptions C09_faulty_schedule_example.
 
 (* Non-vacuity: "é" + "日" split at every byte boundary *)
 Example C09_partitions_example :
